@@ -42,6 +42,23 @@ type state struct {
 	seen map[string]map[string]string // namespace -> name -> identity
 }
 
+// fixed chain names that live in the same tables as the dynamic ones (a sample of rule_defs.go's
+// constants, including the only one Lean shows reachable: ChainARPDispatch).
+var staticChains = []string{rules.ChainARPDispatch, rules.ChainFilterInput, rules.ChainFilterForward, rules.ChainFilterOutput,
+	rules.ChainFromWorkloadDispatch, rules.ChainToWorkloadDispatch, rules.ChainDispatchToHostEndpoint,
+	rules.ChainDispatchFromHostEndpoint, rules.ChainForwardCheck, rules.ChainFailsafeIn, rules.ChainFailsafeOut,
+	rules.ChainWorkloadToHost, rules.ChainDispatchSetEndPointMark, rules.ChainDispatchFromEndPointMark, rules.ChainRpfSkip}
+
+func (s *state) seedStatic() {
+	for _, ns := range []string{"chains/0", "chains/1"} {
+		m := map[string]string{}
+		for _, c := range staticChains {
+			m[c] = "static/" + c
+		}
+		s.seen[ns] = m
+	}
+}
+
 // call runs f, mapping a Go panic to ("", kind).
 func call(f func() string) (out string, panicked string) {
 	defer func() {
@@ -86,6 +103,10 @@ func (s *state) check(h *rt.H, op string, ns, ident string, max int, f func() st
 		}
 		if prev, ok := m[name]; ok && prev != ident {
 			sig := "collision"
+			if strings.HasPrefix(prev, "static/") {
+				// a dynamic chain name equal to one of the FIXED chain names of rule_defs.go
+				sig = "collision-static-chain"
+			}
 			// the verbatim identity "_"+<whole 43-char hash> against a shortened name that is SHORTER than the
 			// limit (room for the hash > 43): the `_` marker argument does not cover this (see Props/C37.lean)
 			for _, id := range []string{prev, ident} {
@@ -139,6 +160,7 @@ func exec(h *rt.H, s *state, op string) string {
 	switch w[0] {
 	case "new":
 		s.seen = map[string]map[string]string{}
+		s.seedStatic()
 		return "ok"
 	case "h":
 		return "ok"
@@ -386,6 +408,7 @@ func main() {
 	run := func(ops []string, tag string) {
 		h.Case(tag)
 		s := &state{seen: map[string]map[string]string{}}
+		s.seedStatic()
 		nontriv := false
 		for _, op := range ops {
 			out := exec(h, s, op)
